@@ -101,13 +101,14 @@ def run(ctx):
         f = ctx.fn(key)
         if not f:
             continue
-        for blk, i, st in ctx.find_aggregates(f, r"util::shape::Shape$"):
-            v = st["r"]["variant"]
-            if v in ("Newtype", "Tuple"):
-                d = ctx.pc_strs(f, blk)
-                one = all(ctx._sat(x, r"^len\(.*\)=1$") for x in d)
-                notone = all(ctx._sat(x, ("ne", r"^len\(.*\)$", 1)) for x in d)
-                got[(key, v)] = "len=1" if one else ("len!=1" if notone else "?")
+        for conds, val in resalg.cases(ctx, f):
+            m_ = re.match(r"^darling_core::util::shape::Shape::(Newtype|Tuple)\{\}$", val)
+            if m_:
+                one = any(re.match(r"^len\(.*\)=1$", c) for c in conds)
+                notone = ctx._sat(set(conds), ("ne", r"^len\(.*\)$", 1))
+                prev = got.get((key, m_.group(1)))
+                now = "len=1" if one else ("len!=1" if notone else "?")
+                got[(key, m_.group(1))] = now if prev in (None, now) else "?"
     ctx.ob("C18.S.newtype-iff-one-field", "AsShape impls", "ast::Fields and syn::FieldsUnnamed agree",
            sorted(got.values()) == ["len!=1", "len!=1", "len=1", "len=1"] and all((v == "len=1") == (k[1] == "Newtype") for k, v in got.items()), "%s" % got)
     f = ctx.fn("<syn::data::Fields as darling_core::util::shape::AsShape>::as_shape")
@@ -118,12 +119,12 @@ def run(ctx):
     f = ctx.fn("<darling_core::ast::data::Fields<T> as darling_core::util::shape::AsShape>::as_shape")
     if f:
         m = {}
-        for blk, i, st in ctx.find_aggregates(f, r"util::shape::Shape$"):
-            for d in ctx.pc_strs(f, blk):
-                for a in d:
-                    mm = re.match(r"^discr\(self\.style\)=(\w+)$", a)
-                    if mm:
-                        m.setdefault(mm.group(1), set()).add(st["r"]["variant"])
+        for conds, val in resalg.cases(ctx, f):
+            sh = re.match(r"^darling_core::util::shape::Shape::(\w+)\{\}$", val)
+            for a in conds:
+                mm = re.match(r"^discr\(self\.style\)=(\w+)$", a)
+                if mm:
+                    m.setdefault(mm.group(1), set()).add(sh.group(1) if sh else val)
         ctx.ob("C18.E.ast-fields-as-shape", f.key, "Tuple→{Newtype,Tuple}, Struct→Named, Unit→Unit", m == {"Tuple": {"Newtype", "Tuple"}, "Struct": {"Named"}, "Unit": {"Unit"}}, "%s" % m)
     # ---------------------------------------------------------------- options: words
     f = ctx.fn(O + "DataShape::set_word")
@@ -168,6 +169,10 @@ def run(ctx):
         for tk in T.all_tokens(("ident",)):
             if tk.text in ("Named", "Tuple", "Newtype", "Unit"):
                 ds = ctx.pc_strs(f, tk.blk)
+                # the token may be a row of a table that is filtered before it is emitted
+                for locs, dnf in ctx.filtered_table_rows(f):
+                    if any(tk.stream in T.stream_alts(l) for l in locs if l is not None):
+                        ds = [d0 | d1 for d0 in (ds or [set()]) for d1 in dnf]
                 flag = tk.text.lower()
                 ok = bool(ds) and all(ctx._sat(d, r"^self\.any=True$") or ctx._sat(d, r"^self\.%s=True$" % flag) for d in ds)
                 m[tk.text] = ok
